@@ -49,8 +49,16 @@ def addressing(facts):
         if fn["name"] == "get_hashes":
             key = "count_min_sketch::get_hashes:index-shape"
             pa = {d: v[0] for d, v in plainly_assigned_locals(fn).items() if len(v) == 1}
+            sa_h = single_assignment_locals(fn)
             loops = [l for l in _loops(fn["body"]) if l.get("k") == "RangeFor" and txt(l.get("range")) == "hash_seeds"]
+            # the same iteration written with an index that also serves as the row number: for (i = 0; i < hash_seeds.size(); ++i)
+            idx_loops = [l for l in _loops(fn["body"]) if l.get("k") == "For" and l.get("c") is not None and "hash_seeds.size()" in txt(l["c"], sa_h)
+                         and isinstance(l.get("init"), dict) and l["init"].get("k") == "Decl" and strip_all(l["init"]["vars"][0].get("init") or {}).get("v") == 0]
             problems = []
+            IDX = None
+            if not loops and idx_loops:
+                loops = idx_loops
+                IDX = idx_loops[0]["init"]["vars"][0]["d"]
             if not loops:
                 problems.append("no loop over hash_seeds")
             else:
@@ -61,7 +69,14 @@ def addressing(facts):
                 walk(L["b"], lambda n: murmurs.append(n) if n.get("k") == "Call" and n.get("cname") == "MurmurHash3_x64_128" else None)
                 walk(L["b"], lambda n: steps.append(_ref_d(n["e"])) if n.get("k") == "Un" and n.get("op") in ("++", "--") else None)
                 hs = None
-                if len(murmurs) != 1 or len(murmurs[0].get("args", [])) != 4 or [_ref_d(a) for a in murmurs[0]["args"][:3]] != [fn["params"][0]["d"], fn["params"][1]["d"], E]:
+                def is_seed(a):
+                    if IDX is None:
+                        return _ref_d(a) == E
+                    a = strip_all(a)
+                    i = a.get("i") if a.get("k") == "Index" else (a["args"][1] if a.get("k") == "OpCall" and a.get("op") == "[]" and len(a.get("args", [])) == 2 else None)
+                    b = a.get("b") if a.get("k") == "Index" else (a["args"][0] if a.get("k") == "OpCall" and a.get("args") else None)
+                    return i is not None and _ref_d(i) == IDX and txt(b) == "hash_seeds"
+                if len(murmurs) != 1 or len(murmurs[0].get("args", [])) != 4 or [_ref_d(a) for a in murmurs[0]["args"][:2]] != [fn["params"][0]["d"], fn["params"][1]["d"]] or not is_seed(murmurs[0]["args"][2]):
                     problems.append("hash is not MurmurHash3_x64_128(item, size, <row seed>, ..)")
                 else:
                     hs = _ref_d(murmurs[0]["args"][3])
@@ -91,6 +106,9 @@ def addressing(facts):
                                     problems.append("bucket index is not `hash %% _num_buckets` (%s)" % txt(o))
                     if row is None:
                         problems.append("cell index is not row * _num_buckets + bucket_index (%s)" % txt(v))
+                    elif IDX is not None:
+                        if row != IDX or steps:
+                            problems.append("the row number is not the loop index over hash_seeds")
                     elif steps.count(row) != 1 or any(x != row for x in steps):
                         problems.append("row counter is not advanced exactly once per hash seed")
                 jumps = []
